@@ -25,6 +25,9 @@ class SyncWorld:
             S._orig_start(t)
             S._orig_join(t)
         server._OnewayCallThread.start = start_and_join
+        import threading
+        self._excepthook = threading.excepthook
+        threading.excepthook = lambda args: None     # uncaught errors of oneway threads are the harness' business, not stderr's
         self._port = 0
 
     def daemon(self, cls=None, **kw):
@@ -49,6 +52,8 @@ class SyncWorld:
                 pass
         self.daemons = []
         server._OnewayCallThread.start = self._oneway_start
+        import threading
+        threading.excepthook = self._excepthook
         self.net.uninstall()
         config.reset(False)
 
